@@ -124,6 +124,7 @@ func (vm *vm) run() error {
 
 		if vm.tos == stackSize && pushesValue(opcode(vm.prog.code[vm.pc])) {
 			vm.pc++
+			vm.stats.opsRead++
 			return vm.runtimeError("stack overflow")
 		}
 
